@@ -388,23 +388,30 @@ func (t *transpiler) charClass(node *ast.CharClassNode) {
 		internalNodes = append(internalNodes, element)
 	}
 	if len(nodesToSplit) > 0 {
-		t.Buffer.WriteString(`(?:[`)
-	} else {
+		t.Buffer.WriteString(`(?:`)
+	}
+	// when every element has been moved out of the brackets
+	// there is no bracket expression left, `[]|[^...]` would be read by Go
+	// as a single character class containing `]|[^...`
+	hasBrackets := len(internalNodes) > 0 || len(nodesToSplit) == 0
+	if hasBrackets {
 		t.Buffer.WriteRune('[')
-	}
-	if node.Negated {
-		t.Buffer.WriteRune('^')
-	}
+		if node.Negated {
+			t.Buffer.WriteRune('^')
+		}
 
-	for _, element := range internalNodes {
-		t.charClassElement(element)
-	}
+		for _, element := range internalNodes {
+			t.charClassElement(element)
+		}
 
-	t.Buffer.WriteRune(']')
+		t.Buffer.WriteRune(']')
+	}
 	t.Mode = topLevelMode
 	if len(nodesToSplit) > 0 {
-		for _, element := range nodesToSplit {
-			t.Buffer.WriteRune('|')
+		for i, element := range nodesToSplit {
+			if hasBrackets || i > 0 {
+				t.Buffer.WriteRune('|')
+			}
 			t.charClassElement(element)
 		}
 		t.Buffer.WriteRune(')')
